@@ -1,2 +1,243 @@
+"""C19: the graph handed to the renderer against the reference model."""
+import json
+import re
+import subprocess
+
+from . import observe as O
+from .analyses import _diag_config
+
+DOT_KEYWORDS = ("graph", "subgraph", "digraph", "node", "edge", "strict")
+COLD = (0x21, 0x20, 0xFF)
+WARM = (0xFF, 0x12, 0x10)
+SI = {"p": 1e-12, "n": 1e-9, "u": 1e-6, "m": 1e-3, "": 1.0, "k": 1e3, "M": 1e6}
+
+
+def unq(s):
+    if isinstance(s, str) and len(s) >= 2 and s[0] == '"' and s[-1] == '"':
+        return s[1:-1].replace('\\"', '"')
+    return s
+
+
+def special_name(n):
+    return ":" in n or n.lower() in DOT_KEYWORDS or '"' in n or "\\" in n
+
+
+def parse_loss_text(t):
+    m = re.match(r"^([0-9.+\-eE]+)([pnumkM]?)W$", t.strip())
+    if not m:
+        return None
+    try:
+        return float(m.group(1)) * SI[m.group(2)]
+    except ValueError:
+        return None
+
+
+def collect(g):
+    """(nodes, edges, clusters) of a pydot graph object: nodes = [(name,
+    attrs, cluster name or None)], edges = [(src, dst, attrs)]."""
+    nodes, edges, clusters = [], [], {}
+    for n in g.get_nodes():
+        nodes.append((unq(n.get_name()), {k: unq(v) for k, v in n.get_attributes().items()}, None))
+    for sg in g.get_subgraphs():
+        cname = unq(sg.get_name())
+        clusters[cname] = {k: unq(v) for k, v in sg.get_attributes().items()}
+        for n in sg.get_nodes():
+            nodes.append((unq(n.get_name()), {k: unq(v) for k, v in n.get_attributes().items()}, cname))
+        for e in sg.get_edges():
+            edges.append((unq(e.get_source()), unq(e.get_destination()), dict(e.get_attributes())))
+    for e in g.get_edges():
+        edges.append((unq(e.get_source()), unq(e.get_destination()), {k: unq(v) for k, v in e.get_attributes().items()}))
+    return nodes, edges, clusters
+
+
 def check_render(sess, op):
-    pass
+    m = sess.model
+    w = sess.w
+    if not w.graphs:
+        return
+    g = w.graphs[-1]
+    heat = op["op"] == "make_hdiag"
+    grouping = op.get("group", True)
+    cfg = _diag_config(sess, op.get("config")) or w.D.get_conf()
+    sig = "dot-special-name" if any(special_name(n) for n in m.order) else ""
+
+    def fail(clause, detail):
+        sess.fail("C19", clause, detail, sig=sig)
+
+    nodes, edges, clusters = collect(g)
+    want_nodes = sorted(m.order + (["Scale"] if heat else []))
+    got_nodes = sorted(n for n, _, _ in nodes)
+    if got_nodes != want_nodes:
+        fail("one-node-per-component", "nodes %s, components %s" % (got_nodes[:12], want_nodes[:12]))
+    want_edges = sorted(m.links())
+    got_edges = sorted((a, b) for a, b, _ in edges)
+    if got_edges != want_edges:
+        fail("one-edge-per-link", "edges %s, links %s" % (got_edges[:10], want_edges[:10]))
+    # the serialised text, read back the way the dot language reads it
+    text = g.to_string()
+    _check_text(sess, m, text, heat, fail)
+    # clusters
+    groups = sorted(set(x for x in m.groups.values() if x))
+    if grouping and groups:
+        if sorted(clusters) != sorted("cluster_" + x for x in groups):
+            fail("clusters-are-groups", "clusters %s, groups %s" % (sorted(clusters), groups))
+        for n, _, c in nodes:
+            if n == "Scale":
+                want = None
+            else:
+                want = ("cluster_" + m.groups[n]) if m.groups[n] else None
+            if c != want:
+                fail("cluster-membership", "%s drawn in %r, group is %r" % (n, c, m.groups.get(n)))
+        for gname in groups:
+            want = dict(cfg["cluster"]["default"])
+            want.update(cfg["cluster"].get(gname, {}))
+            want["label"] = gname
+            if clusters["cluster_" + gname] != want:
+                fail("cluster-attributes", "cluster %r attrs %s want %s" % (gname, clusters["cluster_" + gname], want))
+    else:
+        if clusters:
+            fail("no-clusters-when-ungrouped", "clusters %s with group=%r groups=%s" % (sorted(clusters), grouping, groups))
+    # graph / edge attributes
+    gattr = {k: unq(v) for k, v in g.get_attributes().items()}
+    wantg = dict(cfg["graph"])
+    wantg["label"] = m.sysname + (" - Loss heat map" if heat else "")
+    if gattr != wantg:
+        fail("graph-attributes", "graph attrs %s want %s" % (gattr, wantg))
+    for a, b, attrs in edges:
+        if attrs != dict(cfg["edge"]):
+            fail("edge-attributes", "edge %s->%s attrs %s want %s" % (a, b, attrs, cfg["edge"]))
+    # node attributes: default <- kind <- name
+    loss = None
+    if heat:
+        loss = _weighted_loss(sess)
+        if loss is None:
+            return
+        mx = max(loss.values()) if loss else 0.0
+    for n, attrs, _ in nodes:
+        if n == "Scale":
+            continue
+        want = dict(cfg["node"]["default"])
+        want.update(cfg["node"].get(m.kind(n), {}))
+        want.update(cfg["node"].get(n, {}))
+        if heat:
+            got = dict(attrs)
+            label = got.pop("label", None)
+            fill = got.pop("fillcolor", None)
+            want.pop("fillcolor", None)
+            want["fontcolor"] = "silver"
+            if got != want:
+                fail("node-attributes", "%s attrs %s want %s" % (n, got, want))
+            if label is None or not label.startswith(n + "\n"):
+                fail("heat-label", "%s label %r" % (n, label))
+            val = parse_loss_text(label[len(n) + 1:])
+            L = loss[n]
+            if val is None or abs(val - L) > 5e-3 * abs(L) + 1e-30:
+                fail("heat-label-loss", "%s label %r, duration-weighted loss %r" % (n, label, L))
+            mix = L / mx if mx > 0 else 0.0
+            rgb = _hex(fill)
+            if rgb is None:
+                fail("heat-colour", "%s fillcolor %r" % (n, fill))
+            wantrgb = tuple((1 - mix) * c + mix * h for c, h in zip(COLD, WARM))
+            if any(abs(a - b) > 1.01 for a, b in zip(rgb, wantrgb)):
+                fail("heat-colour", "%s fillcolor %r for loss %r of max %r (want about %s)" % (n, fill, L, mx, tuple(round(x) for x in wantrgb)))
+            if L == mx and mx > 0 and rgb != WARM:
+                fail("heat-colour", "largest loss %s is %r, not fully warm" % (n, fill))
+            if L == 0.0 and rgb != COLD:
+                fail("heat-colour", "zero loss %s is %r, not fully cold" % (n, fill))
+        else:
+            if attrs != want:
+                fail("node-attributes", "%s attrs %s want %s (default<-kind<-name)" % (n, attrs, want))
+    if heat:
+        sc = [a for n, a, _ in nodes if n == "Scale"]
+        lab = sc[0].get("label", "")
+        first = lab.strip("{}").split("|")[0]
+        val = parse_loss_text(first)
+        if val is None or abs(val - mx) > 5e-3 * abs(mx) + 1e-30:
+            fail("heat-legend", "legend %r, maximum loss %r" % (lab, mx))
+        # colours ordered as the losses
+        order = sorted(((loss[n], _hex(a.get("fillcolor"))[0]) for n, a, _ in nodes if n != "Scale"))
+        for (l1, r1), (l2, r2) in zip(order, order[1:]):
+            if l2 > l1 and r2 < r1:
+                fail("heat-colour-order", "loss %r redder than loss %r" % (l1, l2))
+        if len(set(round(v, 12) for v in loss.values())) >= 3:
+            sess.stats["c19_heat_3_losses"] += 1
+    sess.stats["c19_renders_checked"] += 1
+    ov = op.get("config") or {}
+    nontriv = len(groups) >= 2 or bool(ov.get("node")) or (heat and len(set(loss.values())) >= 3)
+    if nontriv:
+        sess.nontrivial.add(("render", m.shape(), tuple(sorted(groups)) if grouping else (), tuple(sorted((ov.get("node") or {}).keys())) != (), heat))
+    if op.get("real_dot"):
+        _real_dot(sess, m, text, heat, grouping, fail)
+
+
+def _hex(s):
+    if not isinstance(s, str) or not re.match(r"^#[0-9a-fA-F]{6}$", s):
+        return None
+    return (int(s[1:3], 16), int(s[3:5], 16), int(s[5:7], 16))
+
+
+def _weighted_loss(sess):
+    m = sess.model
+    r = sess._guard(lambda: sess.sut.solve())
+    if r[0] != "ok":
+        return None
+    t = O.Table(r[1])
+    if m.sys_phases:
+        tot = sum(m.sys_phases.values())
+        out = {}
+        for n in m.order:
+            out[n] = sum(t.comp[ph][n]["Loss (W)"] * m.sys_phases[ph] for ph in t.phases) / tot
+        return out
+    return {n: t.comp[""][n]["Loss (W)"] for n in m.order}
+
+
+def _check_text(sess, m, text, heat, fail):
+    """Read the serialised dot text with pydot's own parser (pure python): the
+    node statements and edges must name exactly the components and links."""
+    import pydot
+
+    try:
+        gs = pydot.graph_from_dot_data(text)
+    except Exception as e:  # noqa
+        gs = None
+    if not gs:
+        fail("dot-text-parses", "pydot cannot parse the emitted dot text")
+    nodes, edges, _ = collect(gs[0])
+    names = sorted(n for n, _, _ in nodes if n not in ("node", "edge", "graph") or n in m.order)
+    # default-attribute statements come back as pseudo nodes named node/edge/graph
+    want = sorted(m.order + (["Scale"] if heat else []))
+    if names != want:
+        fail("dot-text-one-node-per-component", "dot text declares nodes %s, components %s" % (names[:12], want[:12]))
+    got_e = sorted((a.split(":")[0] if False else a, b) for a, b, _ in edges)
+    if got_e != sorted(m.links()):
+        fail("dot-text-one-edge-per-link", "dot text edges %s, links %s" % (got_e[:8], sorted(m.links())[:8]))
+
+
+def _real_dot(sess, m, text, heat, grouping, fail):
+    """Graphviz's own view of the emitted text (dot -Tjson in a subprocess)."""
+    try:
+        p = subprocess.run(["/usr/bin/dot", "-Tjson"], input=text.encode(), capture_output=True, timeout=30)
+    except Exception as e:  # noqa
+        sess.stats["real_dot_unavailable"] += 1
+        return
+    if p.returncode != 0:
+        fail("graphviz-accepts", "dot exit %d: %s" % (p.returncode, p.stderr.decode()[:200]))
+    doc = json.loads(p.stdout.decode())
+    objs = doc.get("objects", [])
+    names = sorted(o["name"] for o in objs if "nodes" not in o and not o["name"].startswith("cluster_") and "_gvid" in o and "subgraphs" not in o)
+    want = sorted(m.order + (["Scale"] if heat else []))
+    if names != want:
+        fail("graphviz-one-node-per-component", "graphviz sees nodes %s, components %s" % (names[:12], want[:12]))
+    byid = {o["_gvid"]: o["name"] for o in objs}
+    ed = sorted((byid[e["tail"]], byid[e["head"]]) for e in doc.get("edges", []))
+    if ed != sorted(m.links()):
+        fail("graphviz-one-edge-per-link", "graphviz sees edges %s, links %s" % (ed[:8], sorted(m.links())[:8]))
+    if grouping:
+        for o in objs:
+            if o["name"].startswith("cluster_"):
+                members = sorted(byid[i] for i in o.get("nodes", []))
+                gname = o["name"][len("cluster_"):]
+                wantm = sorted(n for n in m.order if m.groups[n] == gname)
+                if members != wantm:
+                    fail("graphviz-cluster-membership", "cluster %r holds %s want %s" % (gname, members, wantm))
+    sess.stats["c19_real_dot_renders"] += 1
